@@ -182,6 +182,9 @@ func (e *Engine) loadContractFile(path string, pkg *types.Package) error {
 			}
 			// two contracts for the same function (from different property files) are
 			// conjoined: the function must meet both, callers may rely on both.
+			if a, b := declNames(old.Decl), declNames(c.Decl); a != b && a != "" && b != "" && !strings.HasSuffix(a, "?") && !strings.HasSuffix(b, "?") {
+				return fmt.Errorf("%s:%d: the second contract for %s names its parameters/results %s, the first one %s: conjoined contracts must use the same names", path, c.lineNo, c.Key, b, a)
+			}
 			mergeContracts(old, c)
 			return nil
 		}
@@ -745,6 +748,43 @@ func splitTop(s string, sep byte) []string {
 }
 
 // mergeContracts folds contract c into old (conjunction of contracts).
+// declNames: the parameter and (named) result names of a contract header.
+func declNames(d *ast.FuncDecl) string {
+	if d == nil || d.Type == nil {
+		return ""
+	}
+	var out []string
+	list := func(fl *ast.FieldList) {
+		if fl == nil {
+			return
+		}
+		for _, f := range fl.List {
+			if len(f.Names) == 0 {
+				out = append(out, "_")
+			}
+			for _, n := range f.Names {
+				out = append(out, n.Name)
+			}
+		}
+	}
+	list(d.Type.Params)
+	out = append(out, "->")
+	if d.Type.Results != nil {
+		named := false
+		for _, f := range d.Type.Results.List {
+			if len(f.Names) > 0 {
+				named = true
+			}
+		}
+		if named {
+			list(d.Type.Results)
+		} else {
+			out = append(out, "?")
+		}
+	}
+	return strings.Join(out, ",")
+}
+
 func mergeContracts(old, c *Contract) {
 	old.Header += " +merged(" + filepath.Base(c.File) + ")"
 	old.Requires = append(old.Requires, c.Requires...)
